@@ -137,6 +137,12 @@ func (cr *concRun) checkAudit() {
 		if a.InFlight != 0 {
 			cr.fail(P("C08"), "load.inflight-left", -1, "%d in-flight call records left at quiescence", a.InFlight)
 		}
+		// C17: "delivers every successfully recorded entry once the cache is quiescent and maintenance
+		// runs" - the final views (Hottest / Coldest) ran maintenance under the eviction lock after the
+		// last read, so nothing may be left in the read buffer
+		if a.ReadBufferLen != 0 && cr.cc.Cfg.bounded() {
+			cr.fail(P("C17"), "lossy.read-buffer-not-drained", -1, "after CleanUp and the final ordered traversals the read buffer still holds %d recorded reads", a.ReadBufferLen)
+		}
 	}
 	if cr.freshLoadTried && !cr.freshLoadOK {
 		cr.fail(P("C08"), "load.no-fresh-load", -1, "a Get of an absent key after quiescence did not invoke the loader")
